@@ -409,6 +409,7 @@ func init() {
 	register(&PropertySpec{
 		ID: "C17",
 		Rules: []RuleSpec{
+			{"varsize-arg-types", "every call of io.GetVarSize passes a value of a shape the reflection-based implementation has an arm for; a slice of structs that are Serializable only through pointer receivers counts only if the implementation takes element addresses: the size reported for a value equals the length of its encoding", ruleVarSizeArgTypes},
 			{"err-discipline", "no error returned by a function of the module is discarded (called as a statement or assigned to _) in the codecs, except at the tabled sites whose reason is recorded: a dropped error is a dropped check or a lost write", func(c *Ctx) {
 				ruleErrDiscipline(c, "pkg/io", "pkg/core/transaction", "pkg/core/block", "pkg/network/payload", "pkg/vm/stackitem", "pkg/core/state")
 			}},
